@@ -149,6 +149,20 @@ def strip_comments(src):
     return "".join(out)
 
 
+def lean_closure(modules):
+    """source files of the project transitively imported by `modules`"""
+    seen, todo = set(), list(modules)
+    while todo:
+        m = todo.pop()
+        path = os.path.join(LEAN, *m.split(".")) + ".lean"
+        if path in seen or not os.path.exists(path):
+            continue
+        seen.add(path)
+        for im in re.findall(r"^import\s+(Tuc\.[A-Za-z0-9_.]+)", open(path).read(), re.M):
+            todo.append(im)
+    return seen
+
+
 def lean_check(prop_id):
     """Build the property's theorems and audit their axioms.
     Returns dict(obligations, discharged, theorems=[(name, axioms)], broken=[...], checker_cmd)."""
@@ -161,14 +175,12 @@ def lean_check(prop_id):
     if rc != 0:
         res["broken"].append(f"lake build {' '.join(targets)} failed")
         return res
-    # forbidden tokens in every Lean source of the project
-    for root, _, files in os.walk(os.path.join(LEAN, "Tuc")):
-        for f in files:
-            if f.endswith(".lean"):
-                src = strip_comments(open(os.path.join(root, f)).read())
-                m = FORBIDDEN.search(src)
-                if m:
-                    res["broken"].append(f"forbidden token {m.group(0).strip()!r} in {f}")
+    # forbidden tokens in every Lean source the property's theorems (and the driver) depend on
+    for path in sorted(lean_closure([f"Tuc.Props.{prop_id}", "Driver"])):
+        src = strip_comments(open(path).read())
+        m = FORBIDDEN.search(src)
+        if m:
+            res["broken"].append(f"forbidden token {m.group(0).strip()!r} in {os.path.relpath(path, LEAN)}")
     audit = os.path.join(LEAN, "Tuc", "Audit", f"{prop_id}.lean")
     rc, out = run_cmd(["lake", "env", "lean", audit], cwd=LEAN)
     if rc != 0:
